@@ -189,6 +189,9 @@ def scenario(cfg, kind, large):
         with ctx:
             # reference answers: a calculator that has seen nothing else (one deep copy per input)
             ref = {}
+            fresh0 = copy.deepcopy(calc)     # for the vacuity twin: a calculator with an empty cache
+            if symbolic:
+                fresh0.GFcalc = GFstub(fresh0)
             for nm in sorted(set(p for p in prog if p in args)):
                 fresh = copy.deepcopy(calc)
                 if symbolic:
@@ -214,7 +217,7 @@ def scenario(cfg, kind, large):
                         tag = tname if (step == 'x' and k == ncall.get('x', 0) - 1 and step == prog[-1] and False) else '%s%d-%s' % (step, k, tname)
                         obs.append(('%s:%s' % (name, tag), same(got[n], ref[step][n], symbolic), dict(info, sig='%s:%s' % (kind, tname))))
             if symbolic:
-                obs.append(('twin:%s:differs-from-y' % name, same(ref['x'][1], copy.deepcopy(calc).Lij(*y, large_om2=lom2)[1], True)))
+                obs.append(('twin:%s:differs-from-y' % name, same(ref['x'][1], fresh0.Lij(*y, large_om2=lom2)[1], True)))
         return obs
     return fn
 
@@ -235,7 +238,7 @@ def sections(tier):
                 if large and (tier == 'quick' and (cfg != 'square-1' or kind in ('clear', 'edit-other'))):
                     continue
                 secs.append(S('hist:%s:%s:%s' % (cfg, kind, 'large' if large else 'std'), scenario(cfg, kind, large),
-                              budget_s=170 if tier == 'quick' else 1500, timeout_ms=20000, replayer='hist', config=cfg, maxpaths=400))
+                              budget_s=120 if tier == 'quick' else 1500, timeout_ms=10000 if tier == 'quick' else 20000, replayer='hist', config=cfg, maxpaths=400))
     return secs
 
 
